@@ -40,6 +40,25 @@ func (where Where) Build(builder Builder) {
 	buildExprs(where.Exprs, builder, AndWithSpace)
 }
 
+// containsAndOr reports whether the upper-cased raw SQL contains AND or OR as a
+// separate word, whatever whitespace or parentheses surround it
+func containsAndOr(sql string) bool {
+	isLeft := func(c byte) bool { return c == ' ' || c == '\t' || c == '\n' || c == '\r' || c == ')' }
+	isRight := func(c byte) bool { return c == ' ' || c == '\t' || c == '\n' || c == '\r' || c == '(' }
+	for i := 1; i < len(sql)-2; i++ {
+		if !isLeft(sql[i-1]) {
+			continue
+		}
+		if strings.HasPrefix(sql[i:], "AND") && i+3 < len(sql) && isRight(sql[i+3]) {
+			return true
+		}
+		if strings.HasPrefix(sql[i:], "OR") && isRight(sql[i+2]) {
+			return true
+		}
+	}
+	return false
+}
+
 func buildExprs(exprs []Expression, builder Builder, joinCond string) {
 	wrapInParentheses := false
 
@@ -58,22 +77,22 @@ func buildExprs(exprs []Expression, builder Builder, joinCond string) {
 				if len(v.Exprs) == 1 {
 					if e, ok := v.Exprs[0].(Expr); ok {
 						sql := strings.ToUpper(e.SQL)
-						wrapInParentheses = strings.Contains(sql, AndWithSpace) || strings.Contains(sql, OrWithSpace)
+						wrapInParentheses = containsAndOr(sql)
 					}
 				}
 			case AndConditions:
 				if len(v.Exprs) == 1 {
 					if e, ok := v.Exprs[0].(Expr); ok {
 						sql := strings.ToUpper(e.SQL)
-						wrapInParentheses = strings.Contains(sql, AndWithSpace) || strings.Contains(sql, OrWithSpace)
+						wrapInParentheses = containsAndOr(sql)
 					}
 				}
 			case Expr:
 				sql := strings.ToUpper(v.SQL)
-				wrapInParentheses = strings.Contains(sql, AndWithSpace) || strings.Contains(sql, OrWithSpace)
+				wrapInParentheses = containsAndOr(sql)
 			case NamedExpr:
 				sql := strings.ToUpper(v.SQL)
-				wrapInParentheses = strings.Contains(sql, AndWithSpace) || strings.Contains(sql, OrWithSpace)
+				wrapInParentheses = containsAndOr(sql)
 			}
 		}
 
@@ -191,7 +210,7 @@ func (not NotConditions) Build(builder Builder) {
 				e, wrapInParentheses := c.(Expr)
 				if wrapInParentheses {
 					sql := strings.ToUpper(e.SQL)
-					if wrapInParentheses = strings.Contains(sql, AndWithSpace) || strings.Contains(sql, OrWithSpace); wrapInParentheses {
+					if wrapInParentheses = containsAndOr(sql); wrapInParentheses {
 						builder.WriteByte('(')
 					}
 				}
@@ -226,7 +245,7 @@ func (not NotConditions) Build(builder Builder) {
 			e, wrapInParentheses := c.(Expr)
 			if wrapInParentheses {
 				sql := strings.ToUpper(e.SQL)
-				if wrapInParentheses = strings.Contains(sql, AndWithSpace) || strings.Contains(sql, OrWithSpace); wrapInParentheses {
+				if wrapInParentheses = containsAndOr(sql); wrapInParentheses {
 					builder.WriteByte('(')
 				}
 			}
